@@ -640,6 +640,18 @@ func init() {
 			setRes(st, in, PtrV{Obj: ex.newObj(st, zeroValue(et))})
 			return true
 		},
+		"time.NewTimer": func(ex *Exec, st *State, args []Value, in *ssa.Call, pos token.Pos) bool {
+			et := in.Type().Underlying().(*types.Pointer).Elem()
+			z := zeroValue(et).(StructV)
+			f := append([]Value(nil), z.F...)
+			f[0] = ChanV{ex.newObj(st, ChanState{Env: true})}
+			setRes(st, in, PtrV{Obj: ex.newObj(st, StructV{f})})
+			return true
+		},
+		"(*time.Timer).Stop": func(ex *Exec, st *State, args []Value, in *ssa.Call, pos token.Pos) bool {
+			setRes(st, in, ex.freshVar("timer.stop", BoolSort))
+			return true
+		},
 		"(*time.Ticker).Stop":  nop,
 		"(*time.Ticker).Reset": nop,
 		"time.Sleep": func(ex *Exec, st *State, args []Value, in *ssa.Call, pos token.Pos) bool {
